@@ -146,13 +146,13 @@ PROPS["C05"] = {
                 "binary.BigEndian / LittleEndian as modelled"],
 }
 PROPS["C07"] = {
-    "modules": ["Gws.Props.C07", "Gws.Props.SourceShapeConn"],
-    "theorems": ["SourceShape.conn_sections", "Conc.callback_shape", "Conc.open_close_at_most_once", "Conc.reader_done_closed_once", "Conc.messages_in_wire_order"],
-    "suites": ["conn", "read", "faults:session", "racy:parallel-handlers"],
+    "modules": ["Gws.Props.C07", "Gws.Props.C07Par", "Gws.Props.SourceShapeConn"],
+    "theorems": ["SourceShape.conn_sections", "Conc.callback_shape", "Conc.open_close_at_most_once", "Conc.reader_done_closed_once", "Conc.messages_in_wire_order",
+                 "Par.inv_run", "Par.parallel_bounded", "Par.reader_blocks_at_limit", "Par.each_message_once", "Par.panic_absorbed", "Par.no_crash_when_recovering"],
+    "suites": ["conn", "par", "read", "faults:session", "racy:parallel-handlers"],
     "trusted": CONC_TRUSTED + ["the order and payloads of the callbacks between open and close are those of the read-path model (C03)",
-                               "parallel handling (channel semaphore) and recover() semantics are NOT in the transition system: bounded parallelism and panic absorption are observed by the suites only"],
-    "clauses_without_theorem": ["with parallel handling never more than the configured number of handlers run concurrently (observed)",
-                                "a panic in a handler is absorbed by the recovery function without losing later messages (observed; Facts.dispatchDefersRecovery)"],
+                               "parallel handling is a separate small transition system (Model/Conc/Parallel): a send on a full buffered channel blocks; defer/recover semantics as modelled (Facts.dispatchDefersRecovery); tied by the par suite (gate-controlled handlers, panics, exhaustive action sequences)"],
+    "clauses_without_theorem": ["the interaction of parallel handlers with connection teardown (handlers still running when the read loop ends) is observed only (racy parallel-handlers)"],
 }
 PROPS["C08"] = {
     "modules": ["Gws.Props.C08", "Gws.Props.SourceShapeConn"],
@@ -263,6 +263,13 @@ def _rel_c08(v):
     return True
 
 
-RELEVANT = {"C04": _rel_c04, "C13": _rel_c13, "C16": _rel_c16, "C06": _rel_c06, "C07": _rel_c07, "C08": _rel_c08}
+def _rel_c20(v):
+    # slot addresses are a fidelity observable (the theorem is about this allocation algorithm); a difference
+    # confined to them does not contradict the property
+    strip = lambda o: _re.sub(r"@\d+", "", o)
+    return strip(v["impl"]) != strip(v["model"])
+
+
+RELEVANT = {"C20": _rel_c20, "C04": _rel_c04, "C13": _rel_c13, "C16": _rel_c16, "C06": _rel_c06, "C07": _rel_c07, "C08": _rel_c08}
 
 EXTRA = {}
